@@ -414,6 +414,8 @@ impl Check for RawBytes {
         let base = proptest::sample::select(bases().iter().map(|b| b.1.clone().into_bytes()).collect::<Vec<_>>());
         let bytes = prop_oneof![
             2 => proptest::collection::vec(any::<u8>(), 0..200),
+            // files without any rule or formula
+            1 => proptest::sample::select(vec![Vec::new(), b"% comment only\n".to_vec(), b"\n\n  \n".to_vec(), b"%".to_vec()]),
             3 => (base, proptest::collection::vec((any::<u16>(), any::<u8>()), 1..6)).prop_map(|(mut b, edits)| {
                 for (pos, byte) in edits {
                     if b.is_empty() {
@@ -427,10 +429,10 @@ impl Check for RawBytes {
                 b
             }),
         ];
-        (bytes, 0u8..6).prop_map(|(bytes, command)| BytesCase { bytes, command }).boxed()
+        (bytes, 0u8..8).prop_map(|(bytes, command)| BytesCase { bytes, command }).boxed()
     }
     fn rule(&self) -> String {
-        "random bytes, or an example file with 1-5 byte edits (often producing invalid UTF-8), given to the real binary as a file or on stdin for parse / translate / verify --equivalence strong / verify --equivalence external; oracle: exit status 0, 1 or 2, a message on stderr when non-zero, no signal, no panic message, within 60 s; non-trivial = every case; distinct by bytes + command".into()
+        "random bytes, or an example file with 1-5 byte edits (often producing invalid UTF-8), given to the real binary as a file or on stdin for parse / translate / verify --equivalence strong / verify --equivalence external (without proof search, and with proof search, several prover instances and no prover on the PATH); oracle: exit status 0, 1 or 2, a message on stderr when non-zero, no signal, no panic message, within 60 s; non-trivial = every case; distinct by bytes + command".into()
     }
     fn run(&self, case: &BytesCase) -> Outcome {
         let Some(bin) = cli::anthem_bin() else {
@@ -452,10 +454,16 @@ impl Check for RawBytes {
             2 => vec!["translate".into(), "--with".into(), "tau-star".into(), fs.clone()],
             3 => vec!["verify".into(), "--equivalence".into(), "strong".into(), "--no-proof-search".into(), fs.clone(), okl.clone()],
             4 => vec!["verify".into(), "--equivalence".into(), "external".into(), "--no-proof-search".into(), okl.clone(), fs.clone(), oku.clone()],
-            _ => vec!["verify".into(), "--equivalence".into(), "external".into(), "--no-proof-search".into(), okl.clone(), okl.clone(), inu.clone()],
+            5 => vec!["verify".into(), "--equivalence".into(), "external".into(), "--no-proof-search".into(), okl.clone(), okl.clone(), inu.clone()],
+            // with proof search (several prover instances, no prover on the PATH): the input against a
+            // program without rules, and against itself
+            6 => vec!["verify".into(), "--equivalence".into(), "strong".into(), "-n".into(), "2".into(), fs.clone(), dir.join("empty.lp").to_string_lossy().to_string()],
+            _ => vec!["verify".into(), "--equivalence".into(), "strong".into(), "-n".into(), "3".into(), "--time-limit".into(), "1".into(), fs.clone(), fs.clone()],
         };
+        std::fs::write(dir.join("empty.lp"), "% no rules\n").unwrap();
         let argv: Vec<&str> = args.iter().map(|s| s.as_str()).collect();
-        let r = cli::run_env(&bin, &argv, None, &[], Duration::from_secs(60));
+        let no_prover = [("PATH", "/nonexistent".to_string())];
+        let r = cli::run_env(&bin, &argv, None, if case.command >= 6 { &no_prover } else { &[] }, Duration::from_secs(60));
         let _ = std::fs::remove_dir_all(&dir);
         let shown = String::from_utf8_lossy(&case.bytes).chars().take(300).collect::<String>();
         // deep nesting can arise from byte edits of nested examples only in principle; classify it
